@@ -53,8 +53,30 @@ def main():
     # proofs
     ob, di, problems, names = W.check_proofs(pid)
     res.obligations, res.discharged, res.proof_problems, res.theorems = ob, di, problems, names
-    # tie + oracle
+    # tie + oracle; the thorough tier repeats the exploration with fresh generator seeds (VERIF_ROUNDS, default 10)
     table[pid](res, random.Random(seed), tier)
+    if tier == 'thorough':
+        rounds = int(os.environ.get('VERIF_ROUNDS', '10') or 10)
+        real = sys.stdout
+
+        class _Quiet:
+            # the known findings were reported by the first round
+            def write(self, text):
+                for line in text.splitlines(True):
+                    if not line.startswith('KNOWN-FINDING'):
+                        real.write(line)
+
+            def flush(self):
+                real.flush()
+        sys.stdout = _Quiet()
+        try:
+            for r in range(1, rounds):
+                if res.violations_found() >= 3:
+                    break
+                table[pid](res, random.Random(seed * 1000003 + r), tier)
+        finally:
+            sys.stdout = real
+        res.notes.append('thorough: %d rounds' % rounds)
     return W.finish(res)
 
 
